@@ -37,6 +37,7 @@ func checkC20(p *Program, r *Reporter) {
 		e.ruleAtomicSection(r, "E2-ATOMIC", inc, "app.IPRequestLimiter")
 		intervalRule(p, r, inc)
 		limiterSurfaceRule(p, r, inc)
+		noReopenRule(p, r, inc)
 	}
 }
 
